@@ -54,6 +54,8 @@ CHECKS["C08"] = dict(
                bounds="scale: the large pre-state of VfRIB_big (16 next-hops, 8 groups, 12 top-level entries, cross-instance references, 9 held operations); Flush of {default}, {vrf} or both (VRF first); then one further symbolic next-hop / group operation"),
           dict(pkg="rib", harness="VfC08_flush_t", reach=["end", "pre-built"], quick=dict(skip=True), opts=dict(only=["C08:", "C01:", "C03:"]),
                bounds="as flush_q with 2 groups (shared backup ids), all top-level kinds, every map iteration order (n<=3)"),
+          dict(pkg="rib", harness="VfC08_flushConcurrent", reach=["end"], validate=0, replay_attempts=3, watchdog_s=30, opts=dict(only=["C08:"], unwind=16),
+               bounds="two Flush calls over both instances at the same time (two Flush RPCs): every schedule with up to 2 pre-emptive context switches x every iteration order of the maps the code walks: both return without error, both instances are empty, no lock is left behind; natively the pair is repeated 400 times per attempt"),
           dict(pkg="server", harness="VfC08_flushDecision", reach=["authorised", "no-instance", "missing-election-field", "unexpected-election-id", "zero-id", "lower-id", "unknown-instance"],
                bounds="all (instance selector, election field, 128-bit id, server election state) combinations; RIB with one entry per instance")],
     assumptions=[],
@@ -67,7 +69,7 @@ CHECKS["C09"] = dict(
           dict(pkg="server", harness="VfC09_session3", reach=["end", "terminated", "clean"],
                bounds="as modify2 with the script [session parameters, election announcement, operation message of 1-2 operations]: shapes fixed, every content symbolic (modes, 128-bit ids, each operation's own optional stamp)"),
           dict(pkg="server", harness="VfC09_modify3", reach=["end", "terminated", "clean"], quick=dict(skip=True),
-               bounds="as modify2 with 3 messages (reaches every state of the per-session automaton)")],
+               bounds="3 messages: session parameters, an election announcement (contents symbolic), then ONE free message of any of the 9 kinds incl. two- and three-field messages (three entirely free messages: > 10^6 paths, not finished in 35 min - outside the claim; modify2 covers every first and second message)")],
     assumptions=["enum fields range over their defined values", "status codes are pinned only where the specification/compliance suite pins them (DESIGN.md C09)"],
     level_text="Bounded symbolic execution of the real Modify entry point against an independent automaton of the session rules; message contents (modes, 128-bit ids) are symbolic.",
     level_note="Trusted: go/ssa, gosym (coroutine scheduler, one schedule per path), z3, grpc status stub. Interleavings are C10/C11's subject.",
